@@ -207,7 +207,9 @@ fn sweep_scripts(id: &str) -> Vec<(&'static str, u64, u64, ScriptFn)> {
         "C02" => vec![("wrap", 1000, 100_000, wrap_script)],
         "C05" | "C18" => vec![("many-fresh-sessions", 24, 600, crate::scripts::fresh_sessions_script)],
         "C03" => vec![("window-saturation", 500, 50_000, crate::scripts::saturation_script), ("wrap", 400, 40_000, wrap_script)],
-        "C16" => vec![("wrap", 300, 30_000, wrap_script), ("window-saturation", 200, 20_000, crate::scripts::saturation_script)],
+        "C16" => vec![("wrap", 300, 30_000, wrap_script), ("window-saturation", 200, 20_000, crate::scripts::saturation_script), ("ping-between-pieces", 200, 20_000, crate::scripts::ping_between_pieces_script)],
+        "C01" => vec![("ping-between-pieces", 200, 20_000, crate::scripts::ping_between_pieces_script)],
+        "C11" => vec![("partial-then-disconnect", 300, 30_000, crate::scripts::c11_script)],
         _ => vec![],
     }
 }
@@ -758,6 +760,11 @@ fn tiny_arena(r: &mut Rng) -> Profile {
     p.w_sub = 6;
     p.props_pct = 5;
     p.assigned_id_pct = 0;
+    // packets on both sides of the one-byte / two-byte length form share the arena (QoS 0
+    // publishes and the CONNECT itself are encoded in the space behind the retained packets)
+    p.payload_max = *r.pick(&[20usize, 64, 200]);
+    p.will_pct = 30;
+    p.auth_pct = 30;
     p
 }
 
@@ -961,7 +968,7 @@ pub fn all() -> Vec<Box<dyn Check>> {
         level: "exploration",
         rule: "every accepted PUBLISH(QoS>0)/SUBSCRIBE/UNSUBSCRIBE must get an identifier that is non-zero and not used by any request still awaiting its final acknowledgement (reference in-use set rebuilt from consumed acks). Workloads: scripted wrap histories (1-3 long-lived requests whose acknowledgement is withheld, the 16-bit counter brought to 65532..65535 either through the verif setter or by really burning up to 65535 identifiers through refused publishes, then 6-12 further allocations across the wrap with identifiers burnt in between) and random histories. Non-trivial iff an allocation happened next to the wrap point (counter < 8 or > 65000) while at least one identifier was in use.",
         assumptions: COMMON_ASSUME.to_vec(),
-        workloads: vec![("wrap", 1500, 600_000, Source::Script(wrap_script)), ("replay-heavy", 2000, 600_000, Source::Gen(replay_heavy)), ("general", 2000, 600_000, Source::Gen(general)), ("window-saturation", 500, 100_000, Source::Script(crate::scripts::saturation_script))],
+        workloads: vec![("wrap", 1500, 600_000, Source::Script(wrap_script)), ("replay-heavy", 2000, 600_000, Source::Gen(replay_heavy)), ("general", 2000, 600_000, Source::Gen(general)), ("window-saturation", 500, 100_000, Source::Script(crate::scripts::saturation_script)), ("flush-fault-then-wrap", 300, 30_000, Source::Script(crate::scripts::c07_flush_fault_script))],
         monitor: m::c07::check,
         max_steps: 70,
         epilogue_polls: 0,
@@ -974,7 +981,7 @@ pub fn all() -> Vec<Box<dyn Check>> {
         level: "exploration",
         rule: "the request kept by the harness is compared structurally with the independent decoding of the bytes that operation put on the wire (CONNECT incl. will/auth/keep-alive/expiry/limits, PUBLISH, SUBSCRIBE, UNSUBSCRIBE, DISCONNECT); refused requests must leave nothing on the wire or in the arena. Workloads: scripted boundary cases (13 will x auth x QoS x retain configurations, keep-alive/expiry extremes, remaining lengths 126..129, 16382..16385, 2097150..2097153, property strings of 0/1/127/128/65535 bytes, all 36 subscription-option combinations, transmit arenas from 0 to just enough, 65536-byte fields, lying/failing payload closures) plus random programs. Non-trivial iff a packet with properties / will / auth / at a remaining-length boundary was compared or a request was refused.",
         assumptions: COMMON_ASSUME.to_vec(),
-        workloads: vec![("boundaries", 3000, 1_200_000, Source::Script(crate::scripts::c09_script)), ("general", 2000, 1_000_000, Source::Gen(general))],
+        workloads: vec![("boundaries", 3000, 1_200_000, Source::Script(crate::scripts::c09_script)), ("general", 2000, 1_000_000, Source::Gen(general)), ("ping-between-pieces", 300, 30_000, Source::Script(crate::scripts::ping_between_pieces_script))],
         monitor: m::c09::check,
         max_steps: 60,
         epilogue_polls: 0,
@@ -1072,7 +1079,7 @@ pub fn all() -> Vec<Box<dyn Check>> {
         level: "exploration",
         rule: concat!("status of every operation handle is queried after every step and compared with a reference model (pending until the final ack was consumed in the issuing session, invalidated once a fresh-session CONNACK was consumed); failure codes must surface as Rejected from the consuming call. Non-trivial iff a status transition was observed.", " Workload `wrap`: the identifier counter wraps with older operations outstanding (C07's script), so that handles are queried while the in-flight lists are not in identifier order."),
         assumptions: COMMON_ASSUME.to_vec(),
-        workloads: vec![("acks-heavy", 4000, 2_000_000, Source::Gen(acks_heavy)), ("general", 2000, 1_000_000, Source::Gen(general)), ("wrap", 600, 300_000, Source::Script(wrap_script)), ("window-saturation", 400, 40_000, Source::Script(crate::scripts::saturation_script))],
+        workloads: vec![("acks-heavy", 4000, 2_000_000, Source::Gen(acks_heavy)), ("general", 2000, 1_000_000, Source::Gen(general)), ("wrap", 600, 300_000, Source::Script(wrap_script)), ("window-saturation", 400, 40_000, Source::Script(crate::scripts::saturation_script)), ("tiny-limit", 200, 20_000, Source::Script(crate::scripts::c18_script))],
         monitor: m::c18::check,
         max_steps: 70,
         epilogue_polls: 0,
